@@ -540,7 +540,8 @@ def run_unit(prop, unit, tier, seed, log):
     for oid in my_ids:
         st = 'failed' if oid in failed_ids else 'discharged'
         results.append(dict(base, id=oid, cls='support' if '.sup.' in oid else 'property', status=st,
-                            detail='; '.join(detail.get(oid, [])) or None))
+                            detail='; '.join(detail.get(oid, [])) or None,
+                            expect_fail=oid in unit.get('expect_fail_ids', [])))
     # one body obligation per extracted function: everything Verus checks in it that has no id of its own
     # (call preconditions, overflow, unlabelled invariants, termination)
     for (a, b, name) in fnl:
